@@ -61,14 +61,14 @@ ENGINES = {
 PROPS = {
     "C06": dict(engine="fvsim", level="fault_enumeration", quick=160000, thorough=6000000,
                 design="3.2"),
-    "C07": dict(engine="fvsim", level="exploration", quick=400000, thorough=16000000,
+    "C07": dict(engine="fvsim", level="exploration", quick=400000, thorough=40000000,
                 design="3.2"),
-    "C18": dict(engine="ownsim", level="fault_enumeration", quick=160000, thorough=6000000,
+    "C18": dict(engine="ownsim", level="fault_enumeration", quick=160000, thorough=20000000,
                 design="3.5"),
     "C13": dict(engine="optsim", level="exploration", quick=40000, thorough=1500000, design="3.3"),
-    "C14": dict(engine="optsim", level="exploration", quick=10000, thorough=200000, design="3.3"),
-    "C15": dict(engine="usagesim", level="exploration", quick=40000, thorough=1500000, design="3.4"),
-    "C19": dict(engine="dlsim", level="fault_enumeration", quick=160000, thorough=6000000,
+    "C14": dict(engine="optsim", level="exploration", quick=10000, thorough=60000, design="3.3"),
+    "C15": dict(engine="usagesim", level="exploration", quick=40000, thorough=6000000, design="3.4"),
+    "C19": dict(engine="dlsim", level="fault_enumeration", quick=160000, thorough=20000000,
                 design="3.6"),
     "C05": dict(engine="logsim", level="exploration", quick=96000, thorough=4000000, design="3.1"),
     "C09": dict(engine="logsim", level="exploration", quick=96000, thorough=4000000, design="3.1"),
